@@ -5,7 +5,7 @@
 From Coq Require Import List ZArith QArith Bool.
 From PV Require Import lib.Sx lib.Str lib.Result model.SccTime model.SccStash model.SccPopon spec.SpecSccTime.
 From PV Require Import model.SccDecoder spec.Spec608 spec.SpecScc05.
-From PV Require Import proofs.SccTimeFacts proofs.SccStashFacts proofs.SccPoponFacts proofs.SccPoponStage1 proofs.SccPoponTimesFacts.
+From PV Require Import proofs.SccTimeFacts proofs.SccStashFacts proofs.SccPoponFacts proofs.SccPoponStage1 proofs.SccPoponTimesFacts proofs.SccPoponStage4.
 Import ListNotations.
 
 (* the string surgery of get_time (`_time[:-2] + str(int(_time[-2:]) + frames)`), the regex prefix match, the split
@@ -95,6 +95,15 @@ Theorem C06_popon_single_load_times_partial : forall d r off tcA tcB,
      ROk [mkPre t1 t2 [CText (row_text r) (row_pos r)] (Some (row_pos r))]).
 Proof. exact popon_single_load_times. Qed.
 Print Assumptions C06_popon_single_load_times_partial.
+
+(* WELL-FORMED STREAM -> DISPLAY EVENTS -> SPANS, beyond one load (whole reader model): for every sequence of lines, each
+   a load (ENM RCL PAC [TO] basic characters EOC, single or doubled) or an Erase-Displayed-Memory line, the captions'
+   (start, end) are exactly the spans of the statement computed from the instants of the EOC / EDM words *)
+Theorem C06_popon_stage4_spans_partial : forall d off segs evs,
+  forallb seg_ok segs = true -> res_map (seg_event d off) segs = Ok evs -> positive evs ->
+  spans_of (read off (map (seg_line d) segs)) = expected_with join_threshold evs.
+Proof. exact popon_stage4_spans. Qed.
+Print Assumptions C06_popon_stage4_spans_partial.
 
 (* known defect #20 (offset beyond the timecodes): instants floored to 0 collide with the end == 0 sentinel *)
 Theorem C06_end_zero_sentinel_refuted :
